@@ -148,7 +148,13 @@ static Node build(const json &d, ob::StateSpacePtr have = nullptr)
                 throw std::runtime_error("unknown compound class " + real);
             auto *c = have->as<ob::CompoundStateSpace>();
             for (std::size_t i = 0; i < d["sub"].size(); ++i)
+            {
                 nd.sub.push_back(build(d["sub"][i], c->getSubspace(i)));
+                // the shipped class, re-weighted through the public API when the descriptor says so
+                double w = d["w"][i][0].get<double>() / d["w"][i][1].get<double>();
+                if (w != c->getSubspaceWeight(i))
+                    c->setSubspaceWeight(i, w);
+            }
         }
         nd.plain = true;
     }
@@ -463,6 +469,9 @@ static bool nontrivialClass(const json &cls)
     return false;
 }
 
+static void plainParts(const Node &nd, double w, const ob::State *a, const ob::State *b, std::vector<double> &weights,
+                       std::vector<double> *dists);
+
 // ------------------------------------------------------------------ replay06
 static int replay06(const std::string &path)
 {
@@ -569,13 +578,14 @@ static int replay06(const std::string &path)
             }
             if (cn->plain)
             {
-                auto *cs = cn->sp->as<ob::CompoundStateSpace>();
+                // down to the parts that are not themselves weighted-sum compounds (nested SE2 / SE3 included)
+                std::vector<double> ws, ds;
+                plainParts(cur, 1.0, a(), b(), ws, &ds);
                 double sum = 0;
-                for (std::size_t i = 0; i < cn->sub.size(); ++i)
+                for (std::size_t i = 0; i < ws.size(); ++i)
                 {
                     ++evals;
-                    sum += cs->getSubspaceWeight(i) * cs->getSubspace(i)->distance(ca->as<ob::CompoundState>()->components[i],
-                                                                                    cb->as<ob::CompoundState>()->components[i]);
+                    sum += ws[i] * ds[i];
                 }
                 if (!close(d, sum))
                     rep.fail("c06:" + id + ":compound-sum", "compound distance is not the weighted sum of the component distances", brief);
@@ -892,6 +902,17 @@ static std::vector<Shipped> shipped()
     v.push_back({"CompoundHybrid",
                  J(R"({"k":"Comp","real":"Compound","sub":[{"k":"RV","n":2,"lo":-1,"hi":1,"u":[1,1]},{"k":"Disc","lo":0,"hi":3},{"k":"SO2"}],"w":[[1,1],[2,1],[1,2]]})"),
                  false, true, false});
+    // shipped compound classes re-weighted with setSubspaceWeight(): standalone, nested, wrapped
+    v.push_back({"SE2Reweighted", J(R"({"k":"Comp","real":"SE2","sub":[{"k":"RV","n":2,"lo":-2,"hi":2,"u":[1,1]},{"k":"SO2"}],"w":[[3,1],[2,1]]})"), true, true, false});
+    v.push_back({"SE3Reweighted", J(R"({"k":"Comp","real":"SE3","sub":[{"k":"RV","n":3,"lo":-1,"hi":1,"u":[1,1]},{"k":"SO3"}],"w":[[1,1],[1,16]]})"), true, true, false});
+    v.push_back({"CompoundReweightedNested",
+                 J(R"({"k":"Comp","real":"Compound","sub":[
+                      {"k":"Comp","real":"SE2","sub":[{"k":"RV","n":2,"lo":0,"hi":2,"u":[1,1]},{"k":"SO2"}],"w":[[1,4],[1,1]]},
+                      {"k":"Comp","real":"SE3","sub":[{"k":"RV","n":3,"lo":0,"hi":1,"u":[1,1]},{"k":"SO3"}],"w":[[2,1],[1,2]]},
+                      {"k":"Time","lo":0,"hi":2,"u":[1,1]}],
+                      "w":[[3,2],[1,2],[1,1]]})"),
+                 true, true, false});
+    v.push_back({"WrapperSE2Reweighted", J(R"({"k":"Wrap","of":{"k":"Comp","real":"SE2","sub":[{"k":"RV","n":2,"lo":-1,"hi":1,"u":[1,1]},{"k":"SO2"}],"w":[[1,1],[1,16]]}})"), true, true, false});
     v.push_back({"CompoundSE3Time",
                  J(R"({"k":"Comp","real":"Compound","sub":[{"k":"Comp","real":"SE3","sub":[{"k":"RV","n":3,"lo":0,"hi":1,"u":[1,1]},{"k":"SO3"}],"w":[[1,1],[1,1]]},{"k":"Time","lo":0,"hi":2,"u":[1,1]}],"w":[[1,2],[3,1]]})"),
                  true, true, false});
@@ -1171,6 +1192,28 @@ static long long separation(const Node &nd, const ob::State *a, const ob::State 
     return (long long)std::min(2.0e9, std::ceil(sep * 1e9));
 }
 
+// Decomposition of a space whose distance is CompoundStateSpace::distance, applied recursively: the parts
+// are the sub-spaces that are not themselves such compounds (wrappers looked through), each with the product
+// of the real weights on its path.  With states, also the real distance of each part.
+static void plainParts(const Node &nd, double w, const ob::State *a, const ob::State *b, std::vector<double> &weights,
+                       std::vector<double> *dists)
+{
+    if (nd.k == "Wrap")
+        return plainParts(nd.sub[0], w, a ? a->as<ob::WrapperStateSpace::StateType>()->getState() : nullptr,
+                          b ? b->as<ob::WrapperStateSpace::StateType>()->getState() : nullptr, weights, dists);
+    if (nd.plain)
+    {
+        auto *cs = nd.sp->as<ob::CompoundStateSpace>();
+        for (std::size_t i = 0; i < nd.sub.size(); ++i)
+            plainParts(nd.sub[i], w * cs->getSubspaceWeight(i), a ? a->as<ob::CompoundState>()->components[i] : nullptr,
+                       b ? b->as<ob::CompoundState>()->components[i] : nullptr, weights, dists);
+        return;
+    }
+    weights.push_back(w);
+    if (dists)
+        dists->push_back(nd.sp->distance(a, b));
+}
+
 // sum over the SO(3) leaves of the product of the weights on their path
 static double so3Weight(const Node &nd, double w)
 {
@@ -1326,17 +1369,17 @@ static json spaceEvent(const Shipped &sh, const Node &nd)
     if (cn->plain)
     {
         ev["plain"] = true;
-        auto *cs = cn->sp->as<ob::CompoundStateSpace>();
-        for (std::size_t i = 0; i < cn->sub.size(); ++i)
+        std::vector<double> ws;
+        plainParts(nd, 1.0, nullptr, nullptr, ws, nullptr);
+        for (double w : ws)
         {
-            double w = cs->getSubspaceWeight(i);
-            long num = std::lround(w * 8);
-            if (w <= 0 || std::fabs(num / 8.0 - w) > 0 || num > 64)
+            long num = std::lround(w * 16);
+            if (w <= 0 || std::fabs(num / 16.0 - w) > 0 || num > 128)
             {
                 fprintf(stderr, "FRAMEWORK: weight %g of %s is not a small positive dyadic number\n", w, sh.name.c_str());
                 _exit(4);
             }
-            ev["w"].push_back(json::array({num, 8}));
+            ev["w"].push_back(json::array({num, 16}));
         }
     }
     return ev;
@@ -1591,17 +1634,10 @@ static int record(const std::string &out, long n, const std::string &filter, boo
                               {"sac", separation(nd, a(), c())}, {"parts", json::array()}};
                     if (cn->plain)
                     {
-                        const ob::State *ca = a(), *cb = b();
-                        for (const Node *w = &nd; w->k == "Wrap"; w = &w->sub[0])
-                        {
-                            ca = ca->as<ob::WrapperStateSpace::StateType>()->getState();
-                            cb = cb->as<ob::WrapperStateSpace::StateType>()->getState();
-                        }
-                        auto *cs = cn->sp->as<ob::CompoundStateSpace>();
-                        for (std::size_t i = 0; i < cn->sub.size(); ++i)
-                            ev["parts"].push_back(fx(cs->getSubspace(i)->distance(ca->as<ob::CompoundState>()->components[i],
-                                                                                  cb->as<ob::CompoundState>()->components[i]),
-                                                     nf));
+                        std::vector<double> ws, ds;
+                        plainParts(nd, 1.0, a(), b(), ws, &ds);
+                        for (double x : ds)
+                            ev["parts"].push_back(fx(x, nf));
                     }
                     ev["repro"] = "a=" + show(nd, a()) + " b=" + show(nd, b()) + " c=" + show(nd, c());
                 }
